@@ -1,3 +1,4 @@
+#include <iostream>
 // C12 (SPTree), C13 (greedy_fvs), C14 (candidate collections), C16 (ForestIndex) - flavour I.
 //   components --comp sptree|fvs|collections|forest --n N --alpha A [--edge-orders] ...
 #include <memory>
@@ -253,6 +254,9 @@ static void run_case(vr::Runner &R, const vg::EdgeList &el, const std::vector<do
 
 int main(int argc, char **argv) {
     vr::Args A(argc, argv);
+#ifdef PARMCB_LOGGING
+    std::cout.setstate(std::ios_base::badbit);      // built against a config.hpp with PARMCB_LOGGING on: the library chats on std::cout (harness output uses stdio)
+#endif
     comp = A.get("comp", "sptree");
     vr::Runner R;
     R.nworkers = (int) A.geti("workers", 16);
